@@ -41,10 +41,16 @@ def _dump_worker(args):
     return fn(_iter_states(path, lo, hi), *extra)
 
 
-def map_dump(path, fn, extra=(), nproc=None):
-    """fn(states_iterator, *extra) -> result ; run over shards of a TLC -dump file; returns list of results."""
+def map_dump(path, fn, extra=(), nproc=None, sample=None, seed=0, shards=None):
+    """fn(states_iterator, *extra) -> result ; run over shards of a TLC -dump file; returns list of results.
+    sample=(k, n): process only k of every n shards (seeded choice) - for dumps too large to replay completely."""
     nproc = nproc or NPROC
-    rs = _ranges(path, nproc * 4)
+    rs = _ranges(path, shards or nproc * 4)
+    if sample:
+        import random
+        rnd = random.Random(seed)
+        k, n = sample
+        rs = [r for r in rs if rnd.randrange(n) < k] or rs[:1]
     if not rs:
         return []
     ctx = mp.get_context('fork')
